@@ -65,12 +65,17 @@ func loadImports(sys fs.FS, topPkg string, top *token) (pkgList, error) {
 	var res []*token
 	for len(packages) > 0 {
 		var pkg string
+		found := false
 		for _, k := range keys {
 			if len(deps[k]) > 0 {
 				continue
 			}
 			pkg = k
+			found = true
 			break
+		}
+		if !found {
+			return nil, fmt.Errorf("import cycle among packages: %v", strings.Join(keys, ", "))
 		}
 		delete(deps, pkg)
 		for _, d := range deps {
